@@ -8,7 +8,8 @@ independently of the encoder's and decoder's control flow:
 * `Weaker t r' r` — on an unknown value of type `t` the refinement `r'` admits
   every concrete value that `r` admits (`Refine.γ`, the specification of C05);
 * `Approx t p' p` — the payload `p'` is an acceptable decoding of `p`: the same
-  shape, unknown exactly where `p` is, with a weaker-or-equal refinement there,
+  shape, unknown exactly where `p` is, with a weaker-or-equal refinement there that is moreover
+  the original one as the wire format keeps it (`RfnKept`, d16Rfn.lean: only a long prefix is cut),
   and `numBack` / equal in every known part (a `Covers`-style relation);
 * `Fits E t v` — the decidable hypotheses under which the round trip is proved:
   `v` is unmarked, capsule-free, well-formed, conforms to `t`, and avoids the
@@ -19,6 +20,7 @@ independently of the encoder's and decoder's control flow:
 Core Lean only: the driver evaluates `Fits` on the harness' generated inputs.
 -/
 import CtyModel.Msgpack
+import CtyModel.d16Rfn
 import CtyModel.TySpec
 namespace CtyModel
 namespace Msgpack
@@ -129,7 +131,7 @@ def rfnOK (E : Ext) (vt : Ty) (r : Rfn) : Bool :=
 
 mutual
 def Approx : Ty → Payload → Payload → Prop
-  | t, .unk r', p => (match p with | .unk r => Weaker t r' r | _ => False)
+  | t, .unk r', p => (match p with | .unk r => Weaker t r' r ∧ (t.isDyn = true ∨ RfnKept r' r) | _ => False)
   | _, .null, p => (match p with | .null => True | _ => False)
   | t, .b x, p => (match t, p with | .bool, .b y => x = y | _, _ => False)
   | t, .n y, p => (match t, p with | .number, .n x => numBack y x | _, _ => False)
